@@ -129,3 +129,30 @@ Definition main_pass (t : ctable) (g : depgraph) (reqs : list cset) : list cset 
 
 Definition resolve_requirements (t : ctable) (g : depgraph) : list cset :=
   main_pass t g (dev_pass t g (repeat cs_empty (length (g_pkgs g)))).
+
+(* ---- executable side conditions used by the C03 theorems (proofs/ReqProofs.v) ---- *)
+Definition memn (x : nat) (l : list nat) : bool := existsb (Nat.eqb x) l.
+Lemma memn_spec x l : memn x l = true <-> In x l.
+Proof.
+  unfold memn. rewrite existsb_exists. split.
+  - intros [y [Hy E]]. apply Nat.eqb_eq in E. subst. exact Hy.
+  - intros H. exists x. split; [exact H|apply Nat.eqb_refl].
+Qed.
+
+
+(* the processing order: no node twice, every normal/build dependency of a node strictly later *)
+Fixpoint order_ok (ps : list pkg) (L : list nat) : bool :=
+  match L with
+  | [] => true
+  | x :: L' => negb (memn x L') && forallb (fun d => memn d L') (nb_deps (get_pkg ps x)) && Nat.ltb x (length ps) && order_ok ps L'
+  end.
+Definition topo_ok (g : depgraph) : bool := order_ok (g_pkgs g) (rev (g_topo g)).
+
+(* the roots the code computes, stated directly: workspace members on which no crate of the
+   normal build graph depends through a normal or build edge *)
+Definition roots_ok (g : depgraph) : bool :=
+  let ps := g_pkgs g in
+  forallb (fun x => Bool.eqb (nth x (g_root g) false)
+                      (nth x (g_member g) false &&
+                       negb (existsb (fun p => negb (nth p (g_dev_only g) true) && memn x (nb_deps (get_pkg ps p))) (seq 0 (length ps)))))
+          (seq 0 (length ps)).
